@@ -2,6 +2,6 @@
 import json, sys, glob, jsonschema
 jsonschema.validate(json.load(open('/verif/MANIFEST.json')), json.load(open('/root/.vp/MANIFEST.schema.json')))
 es = json.load(open('/root/.vp/EVIDENCE.schema.json'))
-for p in sorted(glob.glob('/verif/evidence/*.json')):
+for p in sorted(glob.glob('/verif/evidence/*.json') + glob.glob('/verif/evidence/thorough/*.json')):
     jsonschema.validate(json.load(open(p)), es)
 print("manifest and %d evidence files valid" % len(glob.glob('/verif/evidence/*.json')))
